@@ -1008,6 +1008,8 @@ class ManifestRecursiveLoader:
                         # otherwise, make sure we have all checksums
                         if e.tag != 'IGNORE':
                             out[fullpath][1].checksums.update(e.checksums)
+                            # the preserved entry may have changed
+                            self.updated_manifests.add(out[fullpath][0])
                         # and drop the duplicate
                         entries_to_remove.append(e)
                     else:
